@@ -241,3 +241,207 @@ Proof.
     + intros (env & Hlen & Hs). destruct env as [|e0 es]; [discriminate|]. exists es.
       split; [now injection Hlen|]. apply simplify_sat. eapply fm_step_sound; eassumption.
 Qed.
+
+(* ============================================================================================== *)
+(* 5. the system of a profile on an axis                                                           *)
+(* ============================================================================================== *)
+Lemma SS_pairs {T} (R : T -> T -> Prop) l :
+  StronglySorted R l <-> Forall (fun ab => R (fst ab) (snd ab)) (ordered_pairs l).
+Proof.
+  induction l as [|a t IH]; cbn [ordered_pairs].
+  - split; constructor.
+  - rewrite Forall_app, Forall_map. cbn [fst snd]. rewrite <- IH. split.
+    + intros H. inversion H; subst. now split.
+    + intros (H1 & H2). now constructor.
+Qed.
+
+Lemma ordered_pairs_In {T} (l : list T) a b : In (a, b) (ordered_pairs l) -> In a l /\ In b l.
+Proof.
+  induction l as [|x t IH]; cbn [ordered_pairs]; [intros []|]. intros H. apply in_app_or in H. destruct H as [H|H].
+  - apply in_map_iff in H. destruct H as (y & E & Hy). injection E as <- <-. split; [now left|now right].
+  - destruct (IH H). split; now right.
+Qed.
+
+Lemma ordered_pairs_neq {T} (l : list T) a b : NoDup l -> In (a, b) (ordered_pairs l) -> a <> b.
+Proof.
+  induction l as [|x t IH]; cbn [ordered_pairs]; [intros _ []|]. intros Hnd H.
+  inversion Hnd as [|? ? Hnin Hnd']; subst. apply in_app_or in H. destruct H as [H|H].
+  - apply in_map_iff in H. destruct H as (y & E & Hy). injection E as <- <-. intros ->. contradiction.
+  - now apply IH.
+Qed.
+
+Lemma aidx_sorted (R : N -> N -> Prop) axis a b :
+  StronglySorted R axis -> In a axis -> In b axis -> (aidx axis a < aidx axis b)%nat -> R a b.
+Proof.
+  induction 1 as [|x t Ht IH Hall]; intros Ha Hb Hlt; [destruct Ha|]. cbn [aidx] in Hlt.
+  destruct (N.eqb x a) eqn:Exa.
+  - apply N.eqb_eq in Exa. subst x. destruct (N.eqb a b) eqn:Eab; [lia|]. apply N.eqb_neq in Eab.
+    destruct Hb as [->|Hb]; [congruence|]. rewrite Forall_forall in Hall. now apply Hall.
+  - apply N.eqb_neq in Exa. destruct (N.eqb x b) eqn:Exb; [lia|]. apply N.eqb_neq in Exb.
+    destruct Ha as [->|Ha]; [congruence|]. destruct Hb as [->|Hb]; [congruence|]. apply IH; [assumption|assumption|lia].
+Qed.
+
+Lemma aidx_inj axis a b : In a axis -> In b axis -> aidx axis a = aidx axis b -> a = b.
+Proof.
+  induction axis as [|x t IH]; intros Ha Hb E; [destruct Ha|]. cbn [aidx] in E.
+  destruct (N.eqb x a) eqn:Exa, (N.eqb x b) eqn:Exb; try discriminate.
+  - apply N.eqb_eq in Exa, Exb. congruence.
+  - apply N.eqb_neq in Exa, Exb. destruct Ha as [->|Ha]; [congruence|]. destruct Hb as [->|Hb]; [congruence|].
+    apply IH; [assumption|assumption|lia].
+Qed.
+
+Lemma aidx_nth_map (x : N -> Q) axis a : In a axis -> nth (aidx axis a) (map x axis) 0 = x a.
+Proof.
+  induction axis as [|y t IH]; intros Ha; [destruct Ha|]. cbn [aidx]. destruct (N.eqb y a) eqn:E.
+  - apply N.eqb_eq in E. now subst.
+  - apply N.eqb_neq in E. destruct Ha as [->|Ha]; [congruence|]. cbn. now apply IH.
+Qed.
+
+(* the placement read off an assignment of the variables *)
+Definition xof (n : nat) (axis : list N) (env : list Q) (a : N) : Q := nth (n + aidx axis a) env 0.
+
+Lemma eval_c_axis n axis env a b :
+  eval (c_axis n axis (a, b)) env == xof n axis env a - xof n axis env b.
+Proof. unfold c_axis, xof. cbn [fst snd]. rewrite eval_ladd, !eval_unit. ring. Qed.
+
+Lemma axis_sys_sat n axis env :
+  sat env (map (c_axis n axis) (ordered_pairs axis)) <->
+  StronglySorted (fun a b => xof n axis env a < xof n axis env b) axis.
+Proof.
+  rewrite SS_pairs. unfold sat. rewrite Forall_map.
+  split; apply Forall_impl; intros [a b]; rewrite eval_c_axis; cbn [fst snd]; lra.
+Qed.
+
+Lemma vote_cons_sat n axis env v r :
+  StronglySorted (fun a b => xof n axis env a < xof n axis env b) axis -> NoDup r -> incl r axis ->
+  (sat env (map (c_vote n axis v) (ordered_pairs r)) <-> vote_realised (xof n axis env) (nth v env 0) r).
+Proof.
+  intros Hax Hnd Hincl. rewrite vote_realised_SS, SS_pairs. unfold sat. rewrite Forall_map, !Forall_forall.
+  assert (Hpt : forall ab, In ab (ordered_pairs r) ->
+            (eval (c_vote n axis v ab) env < 0 <-> closer (xof n axis env) (nth v env 0) (fst ab) (snd ab))).
+  { intros [a b] Hab. cbn [fst snd]. destruct (ordered_pairs_In _ _ _ Hab) as (Ha & Hb).
+    pose proof (ordered_pairs_neq _ _ _ Hnd Hab) as Hne. apply Hincl in Ha, Hb.
+    unfold c_vote, closer. cbn [fst snd]. destruct (aidx axis a <? aidx axis b)%nat eqn:E.
+    - apply Nat.ltb_lt in E. pose proof (aidx_sorted _ _ _ _ Hax Ha Hb E) as Hlt. cbn beta in Hlt.
+      rewrite (closer_left_iff _ _ _ Hlt). rewrite !eval_ladd, !eval_unit. fold (xof n axis env a) (xof n axis env b).
+      split; intros; lra.
+    - apply Nat.ltb_ge in E. assert (E' : (aidx axis b < aidx axis a)%nat).
+      { destruct (Nat.eq_dec (aidx axis a) (aidx axis b)) as [Eq|Nq]; [|lia].
+        exfalso. apply Hne. now apply (aidx_inj axis). }
+      pose proof (aidx_sorted _ _ _ _ Hax Hb Ha E') as Hlt. cbn beta in Hlt.
+      rewrite (closer_right_iff _ _ _ Hlt). rewrite !eval_ladd, !eval_unit. fold (xof n axis env a) (xof n axis env b).
+      split; intros; lra. }
+  split; intros H ab Hab; apply Hpt; auto.
+Qed.
+
+Lemma Forall2_cons_iff {T U} (P : T -> U -> Prop) a b l1 l2 :
+  Forall2 P (a :: l1) (b :: l2) <-> P a b /\ Forall2 P l1 l2.
+Proof. split; [intros H; inversion H; now subst|intros (H1 & H2); now constructor]. Qed.
+
+Lemma vote_sys_sat n axis env :
+  StronglySorted (fun a b => xof n axis env a < xof n axis env b) axis ->
+  forall (profile : list (list N)) (v0 : nat) (vs : list Q),
+    length vs = length profile -> (forall k, (k < length vs)%nat -> nth (v0 + k) env 0 = nth k vs 0) ->
+    Forall (fun r => NoDup r /\ incl r axis) profile ->
+    (sat env (vote_sys n axis v0 profile) <-> Forall2 (vote_realised (xof n axis env)) vs profile).
+Proof.
+  intros Hax. induction profile as [|r t IH]; intros v0 vs Hlen Hnth Hwf.
+  - destruct vs; [|discriminate]. cbn. split; constructor.
+  - destruct vs as [|p vs']; [discriminate|]. cbn [vote_sys]. rewrite sat_app, Forall2_cons_iff.
+    inversion Hwf as [|? ? (Hnd & Hincl) Hwf']; subst.
+    rewrite (vote_cons_sat n axis env v0 r Hax Hnd Hincl).
+    assert (E0 : nth v0 env 0 = p).
+    { specialize (Hnth 0%nat). rewrite Nat.add_0_r in Hnth. apply Hnth. cbn. lia. }
+    rewrite E0. rewrite (IH (S v0) vs'); [reflexivity| | |assumption].
+    + cbn in Hlen. lia.
+    + intros k Hk. specialize (Hnth (S k)). rewrite Nat.add_succ_r in Hnth. cbn [plus]. apply Hnth. cbn. lia.
+Qed.
+
+Lemma nth_firstn_lt {T} (l : list T) n k d : (k < n)%nat -> nth k (firstn n l) d = nth k l d.
+Proof.
+  revert n k. induction l as [|x t IH]; intros [|n] [|k] H; cbn; try reflexivity; try lia. apply IH. lia.
+Qed.
+
+Lemma vote_realised_ext x x' v r : (forall a, In a r -> x a = x' a) -> vote_realised x v r -> vote_realised x' v r.
+Proof.
+  intros Hext H i j a b Hij Hi Hj. unfold closer.
+  rewrite <- (Hext a), <- (Hext b); [now apply (H i j)| |]; eapply nth_error_In; eassumption.
+Qed.
+
+Lemma ranked_wf (axis : list N) (profile : list (list N)) : NoDup axis -> Forall (fun r => Permutation axis r) profile ->
+  Forall (fun r => NoDup r /\ incl r axis) profile.
+Proof.
+  intros Hnd. apply Forall_impl. intros r HP. split.
+  - eapply Permutation_NoDup; eassumption.
+  - intros a Ha. eapply Permutation_in; [apply Permutation_sym; exact HP|assumption].
+Qed.
+
+(* the system on an axis is feasible iff the profile has an embedding with the alternatives in axis order *)
+Theorem eucl_system_correct axis profile :
+  NoDup axis -> Forall (fun r => Permutation axis r) profile ->
+  (eucl_axis_feasible axis profile = true <->
+   exists x vpos, StronglySorted (fun a b => x a < x b) axis /\ realises x vpos profile).
+Proof.
+  intros Hnd Hrk. pose proof (ranked_wf axis profile Hnd Hrk) as Hwf.
+  unfold eucl_axis_feasible. rewrite fm_feasible_correct. unfold eucl_system, realises.
+  set (n := length profile). split.
+  - intros (env & Hlen & Hs). apply sat_app in Hs. destruct Hs as (Hax & Hv). apply axis_sys_sat in Hax.
+    exists (xof n axis env), (firstn n env). split; [assumption|].
+    apply (vote_sys_sat n axis env Hax profile 0%nat (firstn n env)); try assumption.
+    + rewrite firstn_length. fold n. lia.
+    + intros k Hk. rewrite firstn_length in Hk. cbn [plus]. symmetry. apply nth_firstn_lt. lia.
+  - intros (x & vpos & Hax & Hre). pose proof (Forall2_length _ _ _ Hre) as Hlen. fold n in Hlen.
+    set (env := vpos ++ map x axis). exists env.
+    assert (Hx : forall a, In a axis -> xof n axis env a = x a).
+    { intros a Ha. unfold xof, env. rewrite <- Hlen, app_nth2_plus. now apply aidx_nth_map. }
+    split; [unfold env; rewrite app_length, map_length; lia|].
+    assert (Hax' : StronglySorted (fun a b => xof n axis env a < xof n axis env b) axis).
+    { eapply SS_weaken; [|exact Hax]. cbn beta. intros a b Ha Hb. now rewrite (Hx a Ha), (Hx b Hb). }
+    apply sat_app. split; [now apply axis_sys_sat|].
+    apply (vote_sys_sat n axis env Hax' profile 0%nat vpos); try assumption.
+    + intros k Hk. cbn [plus]. unfold env. now rewrite app_nth1.
+    + eapply Forall2_impl; [|exact Hre]. cbn beta. intros v r _ Hr. apply vote_realised_ext.
+      intros a Ha. symmetry. apply Hx. rewrite Forall_forall in Hwf. now apply (Hwf r Hr).
+Qed.
+
+(* ============================================================================================== *)
+(* 6. the reference decider is exact                                                               *)
+(* ============================================================================================== *)
+Theorem eucl_decide_correct alts profile :
+  NoDup alts -> ranked_on alts profile -> (eucl_decide alts profile = true <-> Euclidean profile).
+Proof.
+  intros Hnd Hrk. destruct profile as [|r0 t].
+  - split; [|reflexivity]. intros _. exists (fun _ => 0), []. constructor.
+  - unfold eucl_decide. rewrite existsb_exists. split.
+    + intros (axis & Hin & H). apply andb_true_iff in H. destruct H as (_ & Hf).
+      apply perms_iff in Hin.
+      assert (Hnda : NoDup axis) by (eapply Permutation_NoDup; eassumption).
+      assert (Hrka : Forall (fun r => Permutation axis r) (r0 :: t)).
+      { eapply Forall_impl; [|exact Hrk]. cbn beta. intros r Hr.
+        eapply Permutation_trans; [apply Permutation_sym; exact Hin|exact Hr]. }
+      apply (eucl_system_correct axis _ Hnda Hrka) in Hf. destruct Hf as (x & vpos & _ & Hre).
+      now exists x, vpos.
+    + intros (x & vpos & Hre).
+      destruct (eucl_implies_sp alts (r0 :: t) x vpos Hnd Hrk) as (_ & axis & HP & Hss & Hsp);
+        [discriminate|assumption|].
+      assert (Hnda : NoDup axis) by (eapply Permutation_NoDup; eassumption).
+      assert (Hrka : Forall (fun r => Permutation axis r) (r0 :: t)).
+      { eapply Forall_impl; [|exact Hrk]. cbn beta. intros r Hr.
+        eapply Permutation_trans; [apply Permutation_sym; exact HP|exact Hr]. }
+      exists axis. split; [now apply perms_iff|]. apply andb_true_iff. split.
+      * apply sp_axis_profile_correct; [assumption| |].
+        -- intros o Ho. apply in_map_iff in Ho. destruct Ho as (r & <- & Hr). intros a.
+           rewrite concat_strictify. rewrite Forall_forall in Hrka. specialize (Hrka r Hr). split; intros Ha.
+           ++ eapply Permutation_in; eassumption.
+           ++ eapply Permutation_in; [apply Permutation_sym; exact Hrka|assumption].
+        -- now apply SPw_axis_strict.
+      * apply (eucl_system_correct axis _ Hnda Hrka). now exists x, vpos.
+Qed.
+
+(* in particular False is the only correct answer exactly when the decider says false *)
+Corollary eucl_decide_false alts profile :
+  NoDup alts -> ranked_on alts profile -> (eucl_decide alts profile = false <-> ~ Euclidean profile).
+Proof.
+  intros Hnd Hrk. rewrite <- (eucl_decide_correct alts profile Hnd Hrk).
+  destruct (eucl_decide alts profile); split; intros H; try reflexivity; try discriminate; try congruence.
+Qed.
